@@ -107,7 +107,7 @@ def prove(tier, seed):
     from vt.pyvc.termproofs import merge, prove_terms
 
     a = prove_index(tier, seed)
-    b = prove_terms(["purity", "l1_norm_coherence", "negativity", "log_negativity"], [("purity", "np.linalg.matrix_power(rho, 2)", "np.linalg.matrix_power(rho, 3)"), ("l1_norm_coherence", "- np.trace(rho)", "- 1"), ("negativity", 'ord="nuc") - 1) / 2', 'ord="nuc") - 1)'), ("log_negativity", "partial_transpose(rho, [1], dim)", "partial_transpose(rho, [0, 1], dim)")], "thorough", "c14t", replay_clause="term.formula14")
+    b = prove_terms(["purity", "l1_norm_coherence", "negativity", "log_negativity", "concurrence"], [("purity", "np.linalg.matrix_power(rho, 2)", "np.linalg.matrix_power(rho, 3)"), ("concurrence", "np.abs(np.sqrt(eig_vals))", "np.abs(eig_vals)"), ("l1_norm_coherence", "- np.trace(rho)", "- 1"), ("negativity", 'ord="nuc") - 1) / 2', 'ord="nuc") - 1)'), ("log_negativity", "partial_transpose(rho, [1], dim)", "partial_transpose(rho, [0, 1], dim)")], "thorough", "c14t", replay_clause="term.formula14")
     return merge(a, b)
 
 
@@ -201,6 +201,21 @@ def term_formula14(p):
             tn = float(np.sum(np.linalg.svd(pt, compute_uv=False)))
             got = getattr(sprops, p["fn"])(r2, [da, db])
             exp = (tn - 1) / 2 if p["fn"] == "negativity" else float(np.log2(tn))
+        elif p["fn"] == "concurrence":
+            from toqito.state_props import concurrence
+
+            if d != 4:
+                continue
+            y = np.array([[0, -1j], [1j, 0]])
+            yy = np.kron(y, y)
+            lam = np.sort(np.abs(np.sqrt(np.linalg.eigvals(rho @ yy @ rho.conj() @ yy).astype(complex))))[::-1]
+            got, exp = concurrence(rho), float(max(0.0, lam[0] - lam[1] - lam[2] - lam[3]))
+            # a pure state with Schmidt coefficients (c, s): concurrence 2 c s
+            th = 0.3 + 0.1 * p.get("seed", 0) % 1.0
+            v = np.array([np.cos(th), 0, 0, np.sin(th)], dtype=complex)
+            c2 = concurrence(np.outer(v, v.conj()))
+            if abs(c2 - 2 * np.cos(th) * np.sin(th)) > 1e-8:
+                raise Violation("concurrence of cos t |00> + sin t |11> = %s, closed form 2 cos t sin t = %s" % (c2, 2 * np.cos(th) * np.sin(th)))
         elif p["fn"] == "purity":
             from toqito.state_props import purity
 
